@@ -58,8 +58,15 @@ MORE_MAPS = [
 ]
 
 
+# alias rules that carry more defaults than the canonical rule they point to (C12)
+ALIAS_MAPS = [
+    [{"rule": "/r/<int:y>", "endpoint": "r"}, {"rule": "/r/l", "endpoint": "r", "defaults": {"y": 7}, "alias": True}],
+    [{"rule": "/s/<x>/<int:p>", "endpoint": "s"}, {"rule": "/s/<x>", "endpoint": "s", "defaults": {"p": 1}, "alias": True}, "/s"],
+]
+
+
 def ALL_MAPS():
-    return MAPS + EXTRA_MAPS + MORE_MAPS
+    return MAPS + EXTRA_MAPS + MORE_MAPS + ALIAS_MAPS
 
 
 _seg_re = re.compile(r"<(?:(?P<conv>[a-zA-Z_]\w*)(?:\((?P<args>[^)]*)\))?:)?(?P<name>\w+)>")
@@ -222,7 +229,7 @@ def merged(path):
     return out
 
 
-def body_match(I, X, mi=0, order=0, strict=True, merge=True, n=3, method="GET", check_redirect=True, script="/", scheme="http"):
+def body_match(I, X, mi=0, order=0, strict=True, merge=True, n=3, method="GET", check_redirect=True, script="/", scheme="http", pct=False):
     from werkzeug.exceptions import MethodNotAllowed, NotFound
     from werkzeug.routing import RequestRedirect
 
@@ -230,7 +237,9 @@ def body_match(I, X, mi=0, order=0, strict=True, merge=True, n=3, method="GET", 
     adapter = m.bind("example.org", script, url_scheme=scheme)
     tail = X.str("path", n, minlen=n, maxcp=0x7E)
     X.assume(pall_in(tail, [(0x21, 0x7E)]))
-    X.assume(pnone_in(tail, [0x25, 0x3F, 0x23]))  # no percent / query / fragment markers
+    # no query / fragment markers; a literal '%' (the server delivers decoded paths, so this is
+    # a percent sign the client sent as %25) only where the caller asks for it (C12)
+    X.assume(pnone_in(tail, [0x3F, 0x23] if pct else [0x25, 0x3F, 0x23]))
     path = pconcat("/", tail)
     if not strict:
         # outside the claim: with strict_slashes off a branch rule also swallows a doubled
